@@ -130,10 +130,14 @@ impl MemoryManager {
 
     pub fn remove_token(&self, token: *const MemToken) {
         self.update_token(token);
-        let mut inner = self.mem_manager.lock().unwrap();
-        inner.remove_token(token);
+        {
+            let mut inner = self.mem_manager.lock().unwrap();
+            inner.remove_token(token);
+        }
         #[cfg(multiqueue2_verif)]
         crate::verif_hooks::probe(crate::verif_hooks::p::TOKEN_REMOVED);
+        // the manager lock must be released first: free() only *tries* to take it, so while
+        // it was still held here no reclamation cycle could ever start or finish on this path
         self.free(token as *mut MemToken, 1);
     }
 
